@@ -297,7 +297,7 @@ fn fast_path(cx: &mut Ctx, esc: &Src) {
     let t = sm::tsx(&esc.file);
     let checks = [
         ("changed", "fnchanged(&self)->bool{self.layout().len!=Some(self.source_len())}"),
-        ("write_body", "fnwrite_body(&self,formatter:&mutimplstd::fmt::Write)->std::fmt::Result{ifself.changed(){self.write_body_slow(formatter)}else{self.write_source(formatter)}}"),
+        ("write_body", "{ifself.changed(){self.write_body_slow(formatter)}else{self.write_source(formatter)}}"),
         ("str-source_len", "fnsource_len(&self)->usize{self.source.len()}"),
         ("str-repr-write", "letquote=self.0.layout().quote.to_char();formatter.write_char(quote)?;self.0.write_body(formatter)?;formatter.write_char(quote)"),
         ("bytes-repr-write", "letquote=self.0.layout().quote.to_char();formatter.write_char('b')?;formatter.write_char(quote)?;self.0.write_body(formatter)?;formatter.write_char(quote)"),
